@@ -157,6 +157,8 @@ def run(ctx, model=None):
         check_case(ctx, gen.with_empty_action(gen.layered_tie_game(rng), rng), model)
         check_case(ctx, gen.integer_game(rng), None)
         check_case(ctx, gen.close_rewards_game(rng), model)
+        check_case(ctx, gen.duplicate_label_game(rng), model)
+        check_case(ctx, gen.mixed_int_float_game(rng), None)
         if k % 2 == 0:
             check_case(ctx, gen.tiny_best_game(rng), model)
             check_case(ctx, gen.big_slow_reward_game(rng), model, limit=60.0)
